@@ -22,7 +22,7 @@ type C12Case struct {
 	Files []TreeFile `json:"files"` // the served subtree
 	// destination side for diff / copy (local in both runs)
 	DestFiles []TreeFile `json:"dest_files,omitempty"`
-	Cmd       string     `json:"cmd"`               // view | view-raw | sum | diff | copy | sum-diff
+	Cmd       string     `json:"cmd"`               // view | view-raw | sum | diff | copy | sum-diff | sum-copy
 	Rel       string     `json:"rel,omitempty"`     // file (or file glob) relative to the subtree
 	Item      string     `json:"item,omitempty"`    // item pattern relative to the subtree
 	Pattern   string     `json:"pattern,omitempty"` // file pattern inside an item
@@ -120,6 +120,9 @@ func runC12(c C12Case, ev *Evid) (fs []Finding) {
 		case "copy":
 			return &cmd.CopyCommand{SrcBase: base, SrcRelPath: rel(c.Rel), DestBase: destBase, AggregationMethod: wt.AggregationMethod(l.Method), XFilesFactor: l.XFF, ArchiveInfoList: wtArchives(l),
 				From: from, Until: until, ArchiveID: c.ArchiveID, CopyNaN: c.CopyNaN, TextOut: out}
+		case "sum-copy":
+			return &cmd.SumCopyCommand{SrcBase: base, ItemPattern: rel(c.Item), SrcPattern: c.Pattern, DestBase: destBase, DestRelPath: "sum.wsp", AggregationMethod: wt.AggregationMethod(l.Method), XFilesFactor: l.XFF,
+				ArchiveInfoList: wtArchives(l), From: from, Until: until, ArchiveID: c.ArchiveID, TextOut: out}
 		case "sum-diff":
 			return &cmd.SumDiffCommand{SrcBase: base, ItemPattern: rel(c.Item), SrcPattern: c.Pattern, DestBase: destBase, DestRelPath: "sum.wsp", From: from, Until: until, ArchiveID: c.ArchiveID, TextOut: out}
 		}
@@ -192,7 +195,16 @@ again:
 		}
 	}
 	faulty := func(k string) bool { return k == "diff-found" || k == "error" || k == "not-exist" }
-	if cl != cr && (c.Cmd == "diff" || c.Cmd == "sum-diff" || c.Cmd == "copy") && c.ArchiveID >= minArch && faulty(cl) && faulty(cr) {
+	// the same holds for sum-diff / sum-copy over source files of differing layouts (an error) when the other
+	// side is missing or fails too
+	mixedLayouts := false
+	for _, f := range append(append([]TreeFile(nil), c.Files...), c.DestFiles...) {
+		if f.Spec.L.String() != l.String() {
+			mixedLayouts = true
+		}
+	}
+	doubleFault := c.ArchiveID >= minArch || ((c.Cmd == "sum-diff" || c.Cmd == "sum-copy") && mixedLayouts)
+	if cl != cr && (c.Cmd == "diff" || c.Cmd == "sum-diff" || c.Cmd == "copy" || c.Cmd == "sum-copy") && doubleFault && faulty(cl) && faulty(cr) {
 		ev.Count(HashJSON(c), false, "cmd="+c.Cmd, "order-dependent-double-fault")
 		return nil
 	}
@@ -220,7 +232,7 @@ again:
 				continue
 			}
 			srcMissing, destMissing := false, false
-			if c.Cmd == "sum-diff" {
+			if c.Cmd == "sum-diff" || c.Cmd == "sum-copy" {
 				itemDir := strings.ReplaceAll(cur, ".", string(filepath.Separator))
 				m, _ := filepath.Glob(filepath.Join(root, itemDir, c.Pattern))
 				srcMissing = len(m) == 0
@@ -254,7 +266,7 @@ again:
 		add("output-mismatch", "%s: text outputs differ at byte %d:\nlocal : %q\nremote: %q", desc, i, tail(tl[lo:], 500), tail(tr[lo:], 500))
 		return
 	}
-	if c.Cmd == "copy" {
+	if c.Cmd == "copy" || c.Cmd == "sum-copy" {
 		sl, sr := snapshotTree(dests[0]), snapshotTree(dests[1])
 		if len(sl) != len(sr) {
 			add("copy-dest-mismatch", "%s: %d destination files after the local run, %d after the remote run", desc, len(sl), len(sr))
@@ -277,7 +289,7 @@ again:
 			return
 		}
 		desc = "(second run after a tree change: +" + fmt.Sprint(len(c.AddFiles)) + " -" + fmt.Sprint(len(c.RemoveFiles)) + " files) " + desc
-		if c.Cmd != "copy" {
+		if c.Cmd != "copy" && c.Cmd != "sum-copy" {
 			goto again
 		}
 	}
@@ -317,7 +329,7 @@ func genC12(t *rapid.T) C12Case {
 			c.Files[i].Name = strings.Replace(c.Files[i].Name, "f", "f"+fileInfix, 1)
 		}
 	}
-	c.Cmd = rapid.SampledFrom([]string{"view", "view", "view-raw", "view-raw", "sum", "sum", "diff", "diff", "copy", "copy", "sum-diff"}).Draw(t, "cmd")
+	c.Cmd = rapid.SampledFrom([]string{"view", "view", "view-raw", "view-raw", "sum", "sum", "diff", "diff", "copy", "copy", "sum-diff", "sum-copy"}).Draw(t, "cmd")
 	pick := c.Files[rapid.IntRange(0, len(c.Files)-1).Draw(t, "pick")]
 	exists := rapid.IntRange(0, 5).Draw(t, "exists") > 0
 	switch c.Cmd {
@@ -326,7 +338,7 @@ func genC12(t *rapid.T) C12Case {
 		if !exists {
 			c.Rel = rapid.SampledFrom([]string{pick.Dir + "/missing.wsp", "nodir/f1.wsp", pick.Dir}).Draw(t, "missingRel")
 		}
-	case "sum", "sum-diff":
+	case "sum", "sum-diff", "sum-copy":
 		c.Item, c.Pattern = genTreePatterns(t, c.Files)
 	case "diff", "copy":
 		switch rapid.IntRange(0, 3).Draw(t, "relKind") {
@@ -342,7 +354,7 @@ func genC12(t *rapid.T) C12Case {
 		}
 	}
 	// destination side: perturbed copies of some source files
-	if c.Cmd == "diff" || c.Cmd == "copy" || c.Cmd == "sum-diff" {
+	if c.Cmd == "diff" || c.Cmd == "copy" || c.Cmd == "sum-diff" || c.Cmd == "sum-copy" {
 		for _, f := range c.Files {
 			switch rapid.IntRange(0, 3).Draw(t, "destKind") {
 			case 0: // absent
@@ -354,7 +366,7 @@ func genC12(t *rapid.T) C12Case {
 				c.DestFiles = append(c.DestFiles, g)
 			}
 		}
-		if c.Cmd == "sum-diff" {
+		if c.Cmd == "sum-diff" || c.Cmd == "sum-copy" {
 			seen := map[string]bool{}
 			for _, f := range c.Files {
 				if !seen[f.Dir] && rapid.Bool().Draw(t, "sumDest") {
@@ -386,7 +398,7 @@ func genC12(t *rapid.T) C12Case {
 			}
 		}
 	}
-	if c.Cmd != "copy" && rapid.IntRange(0, 3).Draw(t, "phase2") == 0 {
+	if c.Cmd != "copy" && c.Cmd != "sum-copy" && rapid.IntRange(0, 3).Draw(t, "phase2") == 0 {
 		// tree change below the pattern's first wildcard level, then the same command again
 		n := rapid.IntRange(0, 2).Draw(t, "adds")
 		for i := 0; i < n; i++ {
